@@ -33,7 +33,7 @@ from mc.ref import automaton as A
 
 ID = "C01"
 LEVEL = "model_checking"
-BUDGET = {"quick": 300, "thorough": 1800}
+BUDGET = {"quick": 300, "thorough": 3600}
 CHUNK = 4
 RULE = (
     "states = distinct (history, canonical machine key) pairs reached on the real machine + TLC states; transitions = "
